@@ -47,7 +47,7 @@ LATEST = [
     f"forall_int(0, j, lambda m: {GROUP}[m].end_time < result.end_time))",
 ]
 contract("MultiRelationLink.reference_node", params=dict(self=REF("MultiRelationLink")), returns=OPT(OP), pure=True, observer=True,
-         reads="*", props=P, ensures=LATEST,
+         reads="*", props=P, ensures=LATEST, inst_depth=1,
          loops={0: [
              f"exists_int(0, len({GROUP}), lambda j: {GROUP}[j] is latest_node and (j < _i or j == 0) and "
              f"forall_int(0, j, lambda m: {GROUP}[m].end_time < latest_node.end_time))",
